@@ -76,6 +76,15 @@ def run(F, R, tier, M=None):
         if k in M.terminates:
             R.fail("X1", f["name"] + " (noexcept)", F.loc(f), "exception reaches noexcept boundary",
                    key="X1t|%s" % f["name"])
+        # a noexcept function in the call closure that an exception can reach calls std::terminate before any
+        # handler of the wrapper runs: the process dies inside the C API
+        term = sorted(c for c in F.closure([k]) if c in M.terminates)
+        if term:
+            g = F.functions[term[0]]
+            t = sorted(M.terminates[term[0]])[0]
+            R.fail("X1", f["name"] + " (terminate)", F.loc(f), "%s reaches the noexcept boundary of %s, which %s calls: "
+                   "std::terminate instead of an error value" % (t, g["name"], f["name"]),
+                   key="X1n|%s|%s" % (f["name"], g["name"]))
 
     R.rule("X1d", "every function declared in the C headers has an analysed extern \"C\" definition", 130)
     for k, d in sorted(F.fdecls.items()):
